@@ -129,6 +129,7 @@ def generate(rng, opts):
         # ("other-repo": the hook belongs to *another* repository - a superproject checking a sibling checkout - so the
         # variables name that repository; only judged for load_git with an explicit `repo`)
         "hook_env": rng.choice([None, None, None, None, "index", "index+dir", "other-repo"]),
+        "submodule": rng.random() < 0.12,
         "dirty": rng.sample(["modified", "staged", "untracked", "ignored"], rng.choice([0, 0, 1, 2, 3])),
         "user_worktree": rng.choice([None, None, None, None, "live", "live", "live", "stale"]) if all_branches else None,
     }
@@ -209,6 +210,21 @@ def build_repo(root, world):
         fh.write("*.log\n")
     with open(os.path.join(repo, "README.md"), "w") as fh:
         fh.write("sim\n")
+    if world["state"].get("submodule"):
+        # the repository has a submodule that this clone never initialised (what a plain `git clone` leaves):
+        # .gitmodules and a gitlink entry are committed, nothing about it is in .git/config or .git/modules
+        lib = os.path.join(root, "lib-origin")
+        os.makedirs(lib)
+        _git(lib, "init", "-q", "-b", "main")
+        with open(os.path.join(lib, "lib.py"), "w") as fh:
+            fh.write("x = 1\n")
+        _git(lib, "add", "-A", env=_env(0))
+        _git(lib, "commit", "-q", "-m", "lib", env=_env(0))
+        sha = _git(lib, "rev-parse", "HEAD").strip()
+        with open(os.path.join(repo, ".gitmodules"), "w") as fh:
+            fh.write(f'[submodule "vendor/lib"]\n\tpath = vendor/lib\n\turl = {lib}\n')
+        os.makedirs(os.path.join(repo, "vendor", "lib"))
+        _git(repo, "update-index", "--add", "--cacheinfo", f"160000,{sha},vendor/lib")
     for i, c in enumerate(world["commits"]):
         for d in (pkg_dir, os.path.join(os.path.dirname(pkg_dir), "_pkg")):
             if os.path.isdir(d):
@@ -896,7 +912,7 @@ def shrink_candidates(plan):
             yield {**plan, "ops": ops[:i] + [{**op, "api": "check"}] + ops[i + 1 :]}
     world = plan["world"]
     st = world["state"]
-    for key, simple in (("collide_branch", False), ("detached", False), ("user_worktree", None), ("repo_dirname", "repo"), ("user_worktree_dirname", "user-wt"), ("work_in_linked_worktree", False), ("tmp_symlinked", False), ("post_checkout_hook", None), ("remote_tracking", False), ("auto_setup_merge", None), ("hook_env", None)):
+    for key, simple in (("collide_branch", False), ("detached", False), ("user_worktree", None), ("repo_dirname", "repo"), ("user_worktree_dirname", "user-wt"), ("work_in_linked_worktree", False), ("tmp_symlinked", False), ("post_checkout_hook", None), ("remote_tracking", False), ("auto_setup_merge", None), ("hook_env", None), ("submodule", False)):
         if st[key] != simple:
             yield {**plan, "world": {**world, "state": {**st, key: simple}}}
     for red in core.list_reductions(st["dirty"]):
